@@ -77,9 +77,14 @@ def gen(seed, tier):
         elif y < 0.75:
             ops.append(['store_at', r.choice(SPARSE) + r.choice((0, 0, 1)),
                         r.random() < 0.15, r.random() < 0.4])
-        elif y < 0.83:
+        elif y < 0.80:
             ops.append(['near'])        # store right above the last issued
-        elif y < 0.91:
+        elif y < 0.88:
+            # ids allocated *inside* a two-phase commit (as a connection
+            # does for new objects), which then commits or aborts
+            ops.append(['txn_oids', r.randint(1, 3), r.randint(0, 3),
+                        r.choice(('commit', 'abort', 'abort', 'abortV'))])
+        elif y < 0.94:
             ops.append(['reopen'])
         else:
             ops.append(['pack'])
@@ -222,6 +227,26 @@ def run_hist(case):
                 if ok:
                     tr.present.add(oid)
                 tr.trace.append(k + ('' if ok else '-aborted'))
+            elif k == 'txn_oids':
+                t = TransactionMetaData(b'', b'', {})
+                st.tpc_begin(t)
+                mine = []
+                for _ in range(op[1]):
+                    oid = st.new_oid()
+                    tr.got(oid)
+                    mine.append(oid)
+                for oid in mine[:op[2]]:
+                    st.store(oid, z64, rec(nxt()), '', t)
+                if op[3] == 'abort':
+                    st.tpc_abort(t)
+                else:
+                    st.tpc_vote(t)
+                    if op[3] == 'abortV':
+                        st.tpc_abort(t)
+                    else:
+                        st.tpc_finish(t)
+                        tr.present.update(mine[:op[2]])
+                tr.trace.append('txn_oids-' + op[3])
             elif k == 'reopen':
                 if kind == 'file':
                     st.close()
@@ -397,7 +422,7 @@ def run(case):
 
 LEVEL_TEXT = ('seeded search over allocation histories and allocator '
               'schedules on every bundled storage kind, with restarts of '
-              'the simulated process, adversarial randomness for '
+              'the simulated process, ids allocated inside commits that abort, adversarial randomness for '
               'DemoStorage and line-level pre-emption of concurrent '
               'allocators; every id handed out is checked against the ids '
               'of the session and the oids present in any layer.')
